@@ -208,6 +208,21 @@ func (h *h3) waitFor(why string, d time.Duration, cond func() bool) bool {
 	return cond()
 }
 
+// pollFor is waitFor for conditions that call into the server (and so may take its locks): the
+// condition is evaluated by the calling task between short sleeps, never by the driver.
+func (h *h3) pollFor(why string, d time.Duration, cond func() bool) bool {
+	deadline := h.s.Now() + d
+	for {
+		if cond() {
+			return true
+		}
+		if h.s.Now() >= deadline {
+			return false
+		}
+		simrt.Sleep(time.Millisecond)
+	}
+}
+
 func ctxT(d time.Duration) (context.Context, context.CancelFunc) {
 	return context.WithTimeout(context.Background(), d)
 }
